@@ -283,9 +283,9 @@ def tieBreakingIdeal (main tb : Sem) : Sem := fun a => do
   let r ← main a
   match r with
   | .list l => do
-      let out ← (distinctTies l).foldlM (fun res t => do
-        let chosen ← tieChoice tb a.votes t (tiePlaces t l)
-        match fillTie t res chosen with
+      let out ← (collectSel l).foldlM (fun res t => do
+        let chosen ← tieChoice tb a.votes t.1 t.2
+        match fillTie t.1 res chosen with
         | some r => pure r
         | Option.none => throw .valueError) l
       pure (.list out)
@@ -297,6 +297,27 @@ def tieBreakingIdeal (main tb : Sem) : Sem := fun a => do
       pure (.dict out)
   | .tie _ => pure r
   | _ => throw eType
+
+/-- closed lists: the first `k` candidates of the party's list, `k` the seats the party won -/
+def closedList (pl : V) (p : Key × V) : Except Err (Key × V) := do
+  let pld ← match pl with
+    | .dict d => pure d
+    | _ => throw eType
+  let lst ← match D.get? pld p.1 with
+    | some (.list l) => pure l
+    | some _ => throw eType
+    | Option.none => throw eKey
+  let k ← p.2.asNat
+  pure (p.1, V.list (lst.take k))
+
+/-- no tiebreaker answer contains the very tie it was asked to break (decidable: the ties of the main
+    result are finitely many and `tieChoice` is computed) -/
+def choicesClean (tb : Sem) (votes : V) (l : List V) : Bool :=
+  (collectSel l).all (fun t => match tieChoice tb votes t.1 t.2 with
+    | .ok chosen => chosen.all (fun x => match x with
+        | .tie cs => decide (cs ≠ t.1)
+        | _ => true)
+    | .error _ => true)
 
 /-- party-list evaluation seats exactly as many list candidates as the party won (closed lists: from
     the top of the list; open lists: the list evaluator's choice of that many) -/
@@ -315,16 +336,7 @@ def partyListLaw (party : Sem) (listEval : Option ListSem) (conv : Option (V →
   | Option.none =>
       if lv.truthy then throw .valueError
       else do
-        let r ← wd.mapM (fun p => do
-          let pld ← match pl with
-            | .dict d => pure d
-            | _ => throw eType
-          let lst ← match D.get? pld p.1 with
-            | some (.list l) => pure l
-            | some _ => throw eType
-            | Option.none => throw eKey
-          let k ← p.2.asNat
-          pure (p.1, V.list (lst.take k)))
+        let r ← wd.mapM (closedList pl)
         pure (.dict r)
   | some le =>
       if !lv.truthy then throw .valueError
